@@ -573,9 +573,9 @@ func TestVerifC05(t *testing.T) {
 	w := bufio.NewWriterSize(f, 1<<20)
 	defer w.Flush()
 
-	perKind, maxSteps, maxAdds, sample := 3, 60, 7, 35
+	perKind, maxSteps, maxAdds, sample := 4, 80, 8, 30
 	if tier == "thorough" {
-		perKind, maxSteps, maxAdds, sample = 30, 120, 12, 35
+		perKind, maxSteps, maxAdds, sample = 30, 160, 12, 30
 	}
 	if v, err := strconv.Atoi(os.Getenv("VERIF_C05_CASES")); err == nil && v > 0 {
 		perKind = v
@@ -686,6 +686,7 @@ func TestVerifC05(t *testing.T) {
 				}
 				run.remoteViews(x, "reload", rst)
 			}
+			fmt.Fprintf(w, "history steps=%d dead=%d\n", n, c0405B2i(p.dead))
 			fmt.Fprintf(w, "END\n")
 			for k, v := range p.stats {
 				stats[k] += v
